@@ -2,7 +2,8 @@
 
 case  = [cfg, probes, hist]
 cfg   = [kind (0 dns.zone.Zone | 1 dns.versioned.Zone | 2 dns.btreezone.Zone), relativize, origin labels,
-         identity observed? (optional, default 1; 0 for B-tree zones whose history touches NS records)]
+         identity observed? (optional, default 1; 0 for B-tree zones whose history touches NS records),
+         t (optional; B-tree zones: branching parameter of the node map, 0 = default 127)]
 probes= absolute names looked up in the *published* zone after every transaction
 hist  = [txn...]     txn = [mode (0 writer | 1 writer(replacement=True) | 2 reader),
                             style (0 manual: op errors are caught, the transaction goes on, commit/rollback
@@ -26,6 +27,7 @@ import base64
 import itertools
 import os
 
+import dns.btree
 import dns.btreezone
 import dns.exception
 import dns.name
@@ -395,7 +397,45 @@ def run_case(case, full=False):
     HOOKS = case[3] if len(case) > 3 else None
     kind, rel, origin = cfg[:3]
     idobs = cfg[3] if len(cfg) > 3 else 1
-    z = ZONES[kind](dns.name.Name(origin), relativize=bool(rel))
+    small_t = cfg[4] if len(cfg) > 4 else 0
+    if kind == 2 and small_t:
+        zcls, dcls = small_btree_classes(small_t)
+        saved = dns.btreezone.Delegations
+        dns.btreezone.Delegations = dcls
+        try:
+            return run_hist_on(zcls(dns.name.Name(origin), relativize=bool(rel)), kind, idobs, probes, hist, full)
+        finally:
+            dns.btreezone.Delegations = saved
+    return run_hist_on(ZONES[kind](dns.name.Name(origin), relativize=bool(rel)), kind, idobs, probes, hist, full)
+
+
+_SMALL = {}
+
+
+def small_btree_classes(t):
+    """a dns.btreezone.Zone whose node map and delegation index are B-trees with a small branching parameter t,
+    so that splits, steals and merges happen with a few dozen names"""
+    if t not in _SMALL:
+        base = dns.btreezone.Delegations
+
+        class SmallDelegations(base):
+            def __init__(self, *, original=None, **kw):
+                if original is not None:
+                    super().__init__(original=original)
+                else:
+                    super().__init__(t=t)
+
+        def mf():
+            return dns.btree.BTreeDict(t=t)
+
+        class SmallZone(dns.btreezone.Zone):
+            map_factory = staticmethod(mf)
+
+        _SMALL[t] = (SmallZone, SmallDelegations)
+    return _SMALL[t]
+
+
+def run_hist_on(z, kind, idobs, probes, hist, full):
     out = []
     for mode, style, ops, fault in hist:
         before = node_objects(z, probes)
@@ -1317,6 +1357,65 @@ def cases(ctx):
         for _ in range(rng.choice([1, 2])):
             hist.append([0, rng.randrange(2), [g.op() for _ in range(rng.choice([2, 4, 6]))], -1])
         yield "hooks", mk_case(kind, rel, origin, hist)[:1] + [probes_of(origin), hist, hooks]
+    # 10. B-tree rebalancing under the node map: a B-tree zone with a SMALL branching parameter t (multi-level tree
+    #     after a few dozen names), pre-populated in a committed transaction; then transactions that delete / add /
+    #     replace names all over the tree - forcing steals, merges and splits in nodes shared with the published
+    #     version - aborted (exception after the last call, explicit rollback) and committed.  The published zone is
+    #     deep-compared after every transaction (and the same histories run on plain and versioned zones).
+    def rebalance_hist(rng, nnames, sorted_order, systematic):
+        names = [[("h%02d" % i).encode()] for i in range(nnames)] if nnames <= 100 else [[("h%03d" % i).encode()] for i in range(nnames)]
+        order = list(names)
+        if not sorted_order:
+            rng.shuffle(order)
+        pop = [[1, [[0, []], [2, [SOA, 0, 3600, [[1, 1]], 1]]]]]
+        for j, nm in enumerate(order):
+            pop.append([1, [[0, nm], [2, [A, 0, 300, [[1 + j % 5, 0]], 1]]]])
+        hist = [[0, 1, pop, -1]]
+        present = list(names)
+        if systematic:
+            # every name deleted alone in a transaction that dies; nothing may change
+            step = max(1, nnames // 40)
+            for nm in names[::step]:
+                hist.append([0, 1, [[3, [[0, nm]]]], 1])
+            return hist, names
+        for _ in range(rng.choice([6, 8, 10])):
+            ops = []
+            for _ in range(rng.choice([1, 1, 2, 3])):
+                r = rng.random()
+                if r < 0.6 and present:
+                    nm = present[rng.randrange(len(present))] if rng.random() < 0.6 else present[rng.choice([0, 1, 2, len(present) // 2, len(present) - 1]) % len(present)]
+                    ops.append([3, [[0, nm]]] if rng.random() < 0.7 else [3, [[0, nm], [4, A]]])
+                elif r < 0.85:
+                    nm = [("h%02dx" % rng.randrange(nnames)).encode()]
+                    ops.append([1, [[0, nm], [2, [A, 0, 300, [[1, 0]], 1]]]])
+                else:
+                    nm = rng.choice(names)
+                    ops.append([2, [[0, nm], [2, [TXT, 0, 60, [[2, 0]], 1]]]])
+            end = rng.random()
+            if end < 0.4:
+                hist.append([0, 1, ops, len(ops)])            # exception after the last call
+            elif end < 0.6:
+                hist.append([0, 0, ops + [[12]], -1])         # explicit rollback
+            else:
+                hist.append([0, 1, ops, -1])                  # commit
+                for op in ops:
+                    nm = op[1][0][1]
+                    if op[0] == 3 and nm in present and len(op[1]) == 1:
+                        present.remove(nm)
+        return hist, names
+
+    plans = [(3, 24, True, True), (3, 30, True, False), (4, 36, True, True), (4, 40, False, False), (5, 50, True, False),
+             (3, 26, False, False), (5, 44, True, True), (4, 32, False, True)]
+    if ctx.tier != "quick":
+        plans = plans * 6 + [(0, 300, True, True), (0, 300, True, False), (0, 280, False, False)]
+    for pi, (t, nnames, so, systematic) in enumerate(plans):
+        origin = [b"example", b""]
+        hist, names = rebalance_hist(rng, nnames, so, systematic)
+        rel = pi % 2
+        probes = [[lower(l) for l in nm + origin] for nm in ([[]] + names[:3] + names[nnames // 2: nnames // 2 + 2] + names[-2:])]
+        yield "rebalance", [[2, rel, origin, 1, t], probes, hist]
+        if pi % 3 == 0 and nnames <= 100:
+            yield "rebalance", [[pi % 2, rel, origin, 1], probes, hist]
     # 6. every rdata type of the universe: merged twice through each argument form (the second add meets an
     #    existing - possibly empty - rdataset), read back, deleted by type with boundary type values
     allt = [A, NS, CNAME, SOA, MX, TXT, SIG, KEY, NXT, DNAME, RRSIG, NSEC, NSEC3]
